@@ -234,6 +234,20 @@ impl Parser {
                             }
                             _ => {}
                         },
+                        // `rx` and `regexp` reach the parser as operator tokens
+                        Lexem::Operator(s)
+                            if matches!(mode, RootParsingMode::Root)
+                                && (s.eq_ignore_ascii_case("rx") || s.eq_ignore_ascii_case("regexp")) =>
+                        {
+                            self.drop_lexem();
+                            match self.parse_root_options() {
+                                Some(options) => root_options = options,
+                                None => {
+                                    roots.push(Root::new(path, RootOptions::new()));
+                                    break
+                                }
+                            }
+                        }
                         Lexem::Comma => {
                             if !path.is_empty() {
                                 roots.push(Root::new(path, root_options));
